@@ -15,7 +15,7 @@ use serde::{Deserialize, Serialize};
 use sha2::{Digest, Sha256};
 use std::collections::{BTreeSet, HashMap};
 use std::fs::{self, File};
-use std::io::BufWriter;
+use std::io::{BufWriter, Write};
 use std::path::{Path, PathBuf};
 use std::time::SystemTime;
 use ts_rs::TS;
@@ -1036,8 +1036,10 @@ pub fn write_plan(plan: &Plan, path: &Path) -> Result<()> {
     }
 
     let file = File::create(path)?;
-    let writer = BufWriter::new(file);
-    serde_json::to_writer_pretty(writer, plan)?;
+    let mut writer = BufWriter::new(file);
+    serde_json::to_writer_pretty(&mut writer, plan)?;
+    // A BufWriter dropped without flushing swallows the write error
+    writer.flush()?;
     Ok(())
 }
 
